@@ -29,6 +29,9 @@ def gen(rng, tier, i):
     return gen_client_plan(rng, PROFILE)
 
 
+from .. import gen as _gen  # noqa
+gen = _gen.with_lines(gen, ['disconnect', '_reset', '_write_loop', '_read_loop_polling', '_read_loop_websocket', 'connect', '_connect_websocket'])
+
 def run(plan, sched_values=None, sched_seed=0):
     h = run_client_scenario(plan, sched_values, sched_seed)
     f = coracles.CFacts(h)
@@ -51,7 +54,7 @@ def run(plan, sched_values=None, sched_seed=0):
 
 
 def _outcome(h, v, pr, nt):
-    return {'violations': v, 'probes': pr, 'faults': dict(h.ss.faults),
+    return {'violations': v, 'probes': pr, 'faults': dict(h.ss.faults, **h.k.line_faults()),
             'sim_s': h.final['now'], 'digest': h.digest,
             'sched_digest': h.sched_digest,
             'states': ['%s:%s:%s' % (h.cw.kind, e['ev'], e['state'])
